@@ -464,7 +464,7 @@ def pots_roles(ctx):
             elif m.eq(T.norm(g.iter), 'self.payoffs') and isinstance(g.target, ast.Name) \
                     and T.norm(n.value.elt) == T.neg(('name', g.target.id)):
                 roles['pending'] = n.targets[0].id
-        if isinstance(n, ast.Call) and self_attr(n.func) == 'rake' and len(n.args) == 2 and isinstance(n.args[0], ast.Name):
+        if isinstance(n, ast.Call) and self_attr(n.func) == 'rake' and len(n.args) + len(n.keywords) == 2 and n.args and isinstance(n.args[0], ast.Name):
             roles['amount'] = n.args[0].id
             roles['rake_call'] = n
     return fi, roles
@@ -530,7 +530,7 @@ def _pots(chk, ctx) -> None:
             ra = rake_call.args
             ok = ok and len(ra) == 2 and isinstance(ra[1], ast.Name) and ra[1].id == 'self'
     chk.ob('C01.pots', 'State.pots:rake', ok, fi.loc,
-           'the pot amount is split by rake(amount, state) and both parts (raked, unraked) are stored in the Pot in that order', got=rake_detail)
+           'the pot amount is split by rake(amount, state) - a caller-supplied function, called positionally - and both parts (raked, unraked) are stored in the Pot in that order', got=rake_detail)
     # merge of pots with equal eligibility re-adds the whole amount (raked + unraked)
     merges = [n for n in walk_no_nested(fi.node) if isinstance(n, ast.AugAssign) and isinstance(n.op, ast.Add)
               and any(isinstance(c, ast.Call) and isinstance(c.func, ast.Attribute) and c.func.attr == 'pop' for c in ast.walk(n.value))]
@@ -835,6 +835,8 @@ def _helpers(chk, ctx) -> None:
     guard = T.spec('not 0 <= percentage <= 1', boolean=True)
     ok = any(p.raised and guard in p.conds() for p in ctx.paths(rk))
     chk.ob('C01.helpers', 'utilities.rake:percentage', ok, rk.loc, 'a rake percentage outside [0, 1] is rejected')
+    from .helpers import chip_literals
+    chip_literals(chk, ctx, 'C01.helpers')
     chk.floor('C01.helpers', 3)
 
 
